@@ -64,6 +64,19 @@ CLAIMED = {
         "DESIGN.md section 4, C18",
         "actual executions and counters are not decided.",
     ),
+    "C13": (
+        "attribute-to-field provenance + dispatch-table symmetry + parity analysis in the sign + hidden-state reachability",
+        "Decides that each Atom/Bond constructor argument in the CDXML node parsers is computed from the XML attribute that "
+        "carries it (Element, Isotope, Charge, Radical, NumHydrogens, Order, B/E) and from no other one, and that total charge "
+        "and multiplicity follow from the formal charges / spins; that every drawn node yields one atom, one coordinate and one "
+        "id entry and every drawn bond one bond (hapto expansion excepted); that the Display table is symmetric (hash partners "
+        "differ only in the sign, Begin/End partners only in the order of the two atoms); that every coordinate mutation in "
+        "_cdxml_3dify_ that depends on the sign is odd in it (parity analysis over products, abs, squares, conditionals, the "
+        "rotation angle) and sign-independent moves occur only as a cancelling translate pair; that no hidden state is reachable "
+        "from __getitem__ / _parse_fragment; and that the label cache stores exactly the fragment returned.",
+        "DESIGN.md section 4, C13",
+        "the 3-D interpretation of wedges, nearest-fragment geometry and radical semantics are not decided.",
+    ),
     "C14": (
         "array co-update per block + re-entrant iteration + view completeness along the MRO",
         "Decides that every block of every ConformerEnsemble method that rebinds one of _coords/_atomic_charges/_weights with a "
